@@ -19,12 +19,13 @@ struct File {
   std::deque<unsigned char> q; size_t capacity;
   File* peer;                                 // stream: other endpoint; pipe_w: read end; pipe_r: write end
   bool peerClosed;                            // peer endpoint closed (FIN) / all pipe writers closed
+  uint32_t inEdge, outEdge; bool nospace;     // edge-triggered epoll: counters of "became readable" / "became writable again" events; nospace: a send found no (or too little) room since the last such event
   bool connected, connecting, refused; int64_t connectAt; int soError;
   uint32_t localIp, peerIp; uint16_t localPort, peerPort;
   // listener
   std::deque<File*> acceptQ; bool listening;
   // epoll
-  struct Interest { uint32_t events; uint64_t data; };
+  struct Interest { uint32_t events; uint64_t data; uint32_t seenIn, seenOut; };   // seen*: edge counters of the file at the last report (EPOLLET registrations)
   std::map<int, Interest> interest;           // fd -> interest (keyed by fd number like the kernel; entries die with the file)
   // eventfd
   uint64_t counter;
